@@ -3,6 +3,8 @@ depend on what the same observable object was applied to before.  One observable
 the SAME tensor object repeatedly while the tensor is refilled / advanced in place (what
 ObservableBase.statistics does with overwrite=True), to another state, and - for SWAP - after its
 region attribute was reassigned; every result must equal that of a fresh observable on a clone."""
+import copy
+
 import torch
 
 import common
@@ -24,7 +26,9 @@ def reuse_phase(chk, make_obs, states, rng, key, rounds=4, mutate_attr=None):
             fresh = make_obs()
             if mutate_attr is not None:
                 setattr(fresh, mutate_attr[0], getattr(obs, mutate_attr[0]))
-            want = fresh.apply(st, buf.clone())
+            # the reference: a fresh observable on a COPY of the state and a clone of the batch, so that
+            # nothing the live objects may remember (per observable, per state, per tensor) is shared
+            want = fresh.apply(copy.deepcopy(st), buf.clone())
             got = obs.apply(st, buf)
             chk.evaluations += 1
             if got.shape != want.shape or not torch.allclose(got, want, rtol=1e-12, atol=1e-12):
@@ -34,8 +38,14 @@ def reuse_phase(chk, make_obs, states, rng, key, rounds=4, mutate_attr=None):
                                        "update (or an attribute change) does not give what a fresh observable gives"))
                 break
             # advance the SAME tensor object in place, as statistics() does between draws
-            if r % 2 == 0:
+            if r % 3 == 0:
                 st.sample(1, initial_state=buf, overwrite=True)
+            elif r % 3 == 1:
+                # the state's parameters move in place (a training step, load()), the batch stays
+                with torch.no_grad():
+                    for net in st.networks:
+                        for p in getattr(st, net).parameters():
+                            p.add_(0.25 * torch.randn(p.shape, generator=torch.Generator().manual_seed(rng.randrange(10 ** 6)), dtype=p.dtype))
             else:
                 buf.copy_(torch.randint(0, 2, buf.shape, generator=torch.Generator().manual_seed(rng.randrange(10 ** 6))).double())
         chk.nontriv((key, "reuse", label))
